@@ -5,7 +5,7 @@
 //! (`driver.rs`) and fault injection on payout / refund sub-calls.
 use crate::driver::{self, local_chan, remote_chan, LOCAL_PORT, REMOTE_PORT};
 use cosmwasm_std::{
-    coin, from_json, to_json_binary, to_json_vec, Addr, CosmosMsg, IbcMsg, Storage, Timestamp,
+    coin, from_json, to_json_binary, to_json_vec, CosmosMsg, IbcMsg, Storage, Timestamp,
     Uint128, WasmMsg,
 };
 use cw20::{AllAccountsResponse, BalanceResponse, Cw20Coin, Cw20ExecuteMsg};
@@ -170,7 +170,7 @@ pub enum Den {
 }
 impl Den {
     pub fn string(&self, ch: u8) -> String {
-        let other = if ch == 0 { 1 } else { 0 };
+        let other = driver::partner(ch);
         match self {
             Den::Proper(b) => format!("{}/{}/{}", REMOTE_PORT, remote_chan(ch), b.string()),
             Den::OtherChannel(b) => format!("{}/{}/{}", REMOTE_PORT, remote_chan(other), b.string()),
@@ -329,7 +329,9 @@ pub struct Old {
 pub struct Cfg {
     pub name: String,
     pub props: Props,
+    /// number of channels, and the index of the first one (0 = plain ids, 2 = crossed ids, see driver)
     pub channels: u8,
+    pub first_chan: u8,
     pub tokens: u8,
     /// (user, token, amount)
     pub funds: Vec<(u8, Tok, u128)>,
@@ -374,6 +376,7 @@ impl Cfg {
             name: name.to_string(),
             props: Props::default(),
             channels: 2,
+            first_chan: 0,
             tokens: 0,
             funds: vec![],
             allow_init: vec![],
@@ -404,6 +407,9 @@ impl Cfg {
             hmax: H0,
             mask_total_sent: true,
         }
+    }
+    pub fn chans(&self) -> std::ops::Range<u8> {
+        self.first_chan..self.first_chan + self.channels
     }
     /// every local denomination the configuration can hold
     pub fn denoms(&self) -> Vec<String> {
@@ -448,7 +454,7 @@ pub struct ChanObs {
 /// Everything the public surface shows: all Channel queries, all real balances, allow list, config.
 #[derive(Clone, Debug, PartialEq, Eq, Default)]
 pub struct Obs {
-    pub chans: Vec<Option<ChanObs>>,
+    pub chans: BTreeMap<u8, Option<ChanObs>>,
     /// kernel bank: (address, denom) -> amount (non-zero)
     pub bank: BTreeMap<(String, String), u128>,
     /// (token address, holder) -> balance, for every account the token lists plus the ics20 contract
@@ -474,7 +480,7 @@ impl Obs {
     }
     pub fn chan_bal(&self, ch: u8, denom: &str) -> u128 {
         self.chans
-            .get(ch as usize)
+            .get(&ch)
             .and_then(|c| c.as_ref())
             .and_then(|c| c.bal.get(denom).copied())
             .unwrap_or(0)
@@ -524,9 +530,10 @@ fn name_of(addr: &str) -> String {
     addr.to_string()
 }
 
-fn short_chans(c: &[Option<ChanObs>]) -> String {
+fn short_chans(c: &BTreeMap<u8, Option<ChanObs>>) -> String {
     let mut out = vec![];
-    for (i, c) in c.iter().enumerate() {
+    for (i, c) in c.iter() {
+        let i = *i;
         match c {
             None => out.push(format!("{}: query failed", local_chan(i as u8))),
             Some(c) => {
@@ -764,9 +771,9 @@ impl Ics20Model {
             o.allowed = po.allowed.clone();
             return o;
         }
-        for ch in 0..cfg.channels {
+        for ch in cfg.chans() {
             let r: Result<ChannelResponse, String> = w.query(&ics, &QueryMsg::Channel { id: local_chan(ch) });
-            o.chans.push(r.ok().map(|c| ChanObs {
+            o.chans.insert(ch, r.ok().map(|c| ChanObs {
                 bal: c.balances.iter().map(|a| (a.denom(), a.amount().u128())).collect(),
                 total: c.total_sent.iter().map(|a| (a.denom(), a.amount().u128())).collect(),
             }));
@@ -812,7 +819,7 @@ impl Ics20Model {
             for d in &denoms {
                 let hold = o.bal(&ics, d);
                 let mut sum: u128 = 0;
-                for ch in 0..cfg.channels {
+                for ch in cfg.chans() {
                     sum = sum.saturating_add(o.chan_bal(ch, d));
                 }
                 if hold < sum {
@@ -821,7 +828,7 @@ impl Ics20Model {
                         format!(
                             "contract really holds {hold} of {} but its channels report {sum} outstanding ({:?})",
                             name_denom(d),
-                            (0..cfg.channels).map(|c| o.chan_bal(c, d)).collect::<Vec<_>>()
+                            cfg.chans().map(|c| o.chan_bal(c, d)).collect::<Vec<_>>()
                         ),
                     ));
                 }
@@ -841,9 +848,9 @@ impl Ics20Model {
             }
         }
         if cfg.props.c12 {
-            for ch in 0..cfg.channels {
+            for ch in cfg.chans() {
                 let mut seen: BTreeSet<String> = denoms.iter().cloned().collect();
-                if let Some(Some(c)) = o.chans.get(ch as usize) {
+                if let Some(Some(c)) = o.chans.get(&ch) {
                     seen.extend(c.bal.keys().cloned());
                 } else {
                     out.push(Violation::new("C12.channel_query_answers", format!("Channel{{{}}} failed", local_chan(ch))));
@@ -1016,14 +1023,14 @@ impl Ics20Model {
             o.res.map_err(|e| format!("instantiate ics20: {e}"))?;
         }
         // the old layouts support a single channel only (migration refuses more)
-        driver::open_channel(w, &ics, 0)?;
+        driver::open_channel(w, &ics, cfg.first_chan)?;
         let inst = w.contracts.get_mut(&ics).unwrap();
         cw2::set_contract_version(&mut inst.store, "crates.io:cw20-ics20", old.version).map_err(|e| e.to_string())?;
         for (t, x) in &old.counted {
             CHANNEL_STATE
                 .save(
                     &mut inst.store,
-                    (&local_chan(0), &t.denom()),
+                    (&local_chan(cfg.first_chan), &t.denom()),
                     &ChannelState {
                         outstanding: Uint128::new(*x),
                         total_sent: Uint128::new(*x),
@@ -1035,7 +1042,7 @@ impl Ics20Model {
             let p = Ics20Packet::new(Uint128::new(*x), t.denom(), &actor(*u), REMOTE_RCPT);
             w.outbox.push(SentPacket {
                 contract: ics.clone(),
-                channel_id: local_chan(0),
+                channel_id: local_chan(cfg.first_chan),
                 data: to_json_vec(&p).unwrap(),
                 timeout_ts_nanos: Some(Timestamp::from_seconds(T0 + DEFAULT_TIMEOUT).nanos()),
                 seq: 0,
@@ -1223,7 +1230,7 @@ impl Model for Ics20Model {
                 if let Err(e) = o.res {
                     return dead(w, v, format!("instantiate ics20: {e}"));
                 }
-                for ch in 0..cfg.channels {
+                for ch in cfg.chans() {
                     if let Err(e) = driver::open_channel(&mut w, &ics, ch) {
                         return dead(w, v, e);
                     }
@@ -1248,8 +1255,8 @@ impl Model for Ics20Model {
                 // channel is outstanding (acknowledged sends + sends still in flight)
                 for (t, x) in &escrow {
                     if *x > 0 {
-                        r.out.insert((0, t.denom()), *x);
-                        r.credit.insert((0, t.denom()), *x as i128);
+                        r.out.insert((cfg.first_chan, t.denom()), *x);
+                        r.credit.insert((cfg.first_chan, t.denom()), *x as i128);
                     }
                 }
                 migrated = false;
@@ -1302,7 +1309,7 @@ impl Model for Ics20Model {
                         if amt > have {
                             continue;
                         }
-                        for ch in 0..cfg.channels {
+                        for ch in cfg.chans() {
                             for (t, m) in &cfg.variants {
                                 out.push(Act::Transfer {
                                     user: u,
@@ -1318,7 +1325,7 @@ impl Model for Ics20Model {
                 }
             }
         }
-        for ch in 0..cfg.channels {
+        for ch in cfg.chans() {
             for b in &cfg.proper {
                 // a well-prefixed voucher of a local token gets the full amount x receiver x fault
                 // product; every other denomination (never redeemable) the reduced one
@@ -1795,8 +1802,8 @@ impl Model for Ics20Model {
         // ---- generic transition clauses (pre vs. post), only between two current-layout states
         if s.migrated && migrated {
             if p.c12 || p.c11 {
-                for ch in 0..cfg.channels {
-                    if let (Some(Some(c0)), Some(Some(c1))) = (pre.chans.get(ch as usize), post.chans.get(ch as usize)) {
+                for ch in cfg.chans() {
+                    if let (Some(Some(c0)), Some(Some(c1))) = (pre.chans.get(&ch), post.chans.get(&ch)) {
                         for (d, t0) in &c0.total {
                             let t1 = c1.total.get(d).copied().unwrap_or(0);
                             if t1 < *t0 {
@@ -1892,5 +1899,3 @@ impl Model for Ics20Model {
     }
 }
 
-#[allow(dead_code)]
-pub fn unused(_: Addr) {}
